@@ -209,6 +209,20 @@ PLUGIN_TESTS = [
 ]
 
 
+# snapshot() calls in unusual syntactic places (real sessions): whatever is written lies inside the parentheses of a snapshot() call
+_H = "# tests of the report text\nfrom inline_snapshot import snapshot\n\n\n"
+PLACE_TESTS = [
+    (_H + 'def test_a():\n    line = f"result: {7 == snapshot(3)}"\n    assert line\n', "fix"),
+    (_H + 'def test_a():\n    line = f"result: {7 == snapshot()}"\n    assert line\n', "create"),
+    (_H + 'def test_a():\n    line = f"{[1, 2] == snapshot([1])!r:>10} and {snapshot({\'k\': 1}) == {\'k\': 2}}"\n    assert line\n', "fix"),
+    (_H + 'def test_a():\n    assert f"{3 <= snapshot(2)}" and 5 == snapshot(4)\n', "fix"),
+    (_H + 'def test_a():\n    assert 1 == snapshot(2); assert 3 == snapshot(4)\n    assert (5 == snapshot(6)) and (7 == snapshot(8))\n', "fix"),
+    (_H + 'def check(v, s=snapshot(1)):\n    return v == s\n\n\nclass T:\n    expected = snapshot(2)\n\n    def test_a(self):\n        assert 5 == self.expected\n\n\ndef test_b():\n    assert check(3) or True\n', "fix"),
+    (_H + 'def test_a():\n    ok = [x == snapshot(1) for x in (2,)]\n    f = lambda v: v == snapshot(3)\n    assert f(4) or ok\n    assert 9 == \\\n        snapshot(8), "message with snapshot(0) in it"\n', "fix"),
+    (_H + 'def test_a():\n    assert 5 == snapshot(\n        4  # the old value\n    )  # trailing\n    assert 6 == snapshot  (  7  )\n', "fix"),
+]
+
+
 W_CLASS = 'class W:\n    def __repr__(self):\n        return "<W>"\n\n    def __eq__(self, o):\n        return True if isinstance(o, W) else NotImplemented\n\n\n'
 PLUGIN_PROJECTS = [
     # several files rewritten in one session: what one file needs must not leak into the others
@@ -299,6 +313,13 @@ def run(ctx: Ctx):
         if why:
             ctx.report("C03 oracle (plugin): " + why, {"kind": "plugin", "source": item[0], "flag": item[1], "after": o["after"].decode("utf-8", "replace"), "output": o["tail"]},
                        tag=_plugin_tag(item[0], o))
+    for item, o in zip(PLACE_TESTS, tmap(run_plugin_case, [(a, b, False) for a, b in PLACE_TESTS])):
+        ctx.count(("place", item[0]), True)
+        why = judge(o["before"], o["after"], False)
+        if why is None and (o["rc"] not in (0, 1) or "INTERNALERROR" in o["tail"]):
+            why = f"the session ended with exit status {o['rc']} / an internal error"
+        if why:
+            ctx.report("C03 oracle (snapshot() in an unusual place): " + why, {"kind": "plugin", "source": item[0], "flag": item[1], "after": o["after"].decode("utf-8", "replace"), "output": o["tail"]})
     for item, o in zip(PLUGIN_PROJECTS, tmap(run_plugin_project, PLUGIN_PROJECTS)):
         ctx.count(("plugin_project", repr(item[0])), True)
         if o["rc"] not in (0, 1):
@@ -310,7 +331,7 @@ def run(ctx: Ctx):
                 why = "nothing was written"
             if why:
                 ctx.report(f"C03 oracle (plugin, several files, {n}): " + why, {"kind": "plugin_project", "files": item[0], "flag": item[1], "after": o["after"][n].decode("utf-8", "replace")})
-    ctx.coverage["oracle"]["plugin_sessions"] = len(PLUGIN_TESTS) + len(PLUGIN_PROJECTS)
+    ctx.coverage["oracle"]["plugin_sessions"] = len(PLUGIN_TESTS) + len(PLUGIN_PROJECTS) + len(PLACE_TESTS)
     # the only edit allowed outside snapshot() calls: the inserted import line (Model/Imports.v)
     from .. import importscorr as ic
     ic.check_part(ctx, 300 if not ctx.thorough else 3000, "C03")
